@@ -171,7 +171,7 @@ class MLETomographyAlgorithm:
             alpha = 0.5
             new_cost = self._cost(choi + alpha * mod, n_vec)
             thresh_value = gamma * np.trace(
-                mod @ np.conj(self._gradient(choi.T, n_vec))
+                mod @ self._gradient(choi, n_vec)
             )
             while new_cost > current_cost + alpha * thresh_value:
                 alpha *= 0.5
@@ -218,11 +218,12 @@ class MLETomographyAlgorithm:
         for i, in_s in enumerate(self._input_basis):
             for j, meas in enumerate(self._meas_basis):
                 obs = self._all_pauli[meas]
+                rho_t = np.array(self._all_rhos[in_s]).T
                 a_mat[2 * (len(self._meas_basis) * i + j), :] = _vec(
-                    np.kron(self._all_rhos[in_s], ((id_mat + obs) / 2).T)
+                    np.kron((id_mat + obs) / 2, rho_t)
                 )[:]
                 a_mat[2 * (len(self._meas_basis) * i + j) + 1, :] = _vec(
-                    np.kron(self._all_rhos[in_s], ((id_mat - obs) / 2).T)
+                    np.kron((id_mat - obs) / 2, rho_t)
                 )[:]
         return a_mat / (2 ** (2 * self.n_qubits))
 
@@ -244,7 +245,7 @@ class MLETomographyAlgorithm:
         """
         Finds gradient between expected and measured expectation values.
         """
-        return -_unvec(np.conj(self._a_matrix.T) @ (n_vec / self._p_vec(choi)))
+        return -_unvec(self._a_matrix.T @ (n_vec / self._p_vec(choi)))
 
     def _cptp_proj(self, choi: np.ndarray, max_iter: int = 1000) -> np.ndarray:
         """
